@@ -2,26 +2,26 @@
 
 Differential on the real code: the eager run (io always ready) against the same case under a generated or enumerated
 schedule of read availability and write refusals."""
-from .. import spec as S, gen as G, ref
+from .. import spec as S, gen as G, ref, fuzz
 from ..spec import OK, DATA_OK, DATA_NEXT, NEXT, ERR, LIST, HEX_OK, HEX_ERR
 from ..common import Result
 
 ID = "C12"
 LEVEL = "exploration"
 WORLDS = [(1, "plain"), (8, "plain")]
-BUDGET = {"quick": dict(cases=900), "thorough": dict(cases=20000)}
+BUDGET = {"quick": dict(cases=900, fuzz_s=8), "thorough": dict(cases=20000, fuzz_s=90)}
 MIN_NONTRIVIAL = {"quick": 2000, "thorough": 30000}
 BLOB = (300, 1300)
 RULE = ("Generated (Hypothesis): tables of 1-8 commands (all handler subsets, variables of all types with callbacks that may fail, multi-step return-code "
         "scripts with buffer edits, command lists, descriptions), 1-6 valid or damaged lines with LF/CRLF and stray CRs, capacity 6-64, no events; schedule = "
         "alternating run lengths 'ready r1, not ready n1, ...' for reads and 'accept a1, refuse f1 (as 0, -1 or 2), ...' for writes with runs up to 40. "
         "Enumerated: on fixed two-line inputs every placement of one refusal and of two refusals (read x read, write x write, read x write) over all io attempts, "
-        "and the input cut at every byte boundary by a 40-step pause - exhaustive for that space. Oracle: identical output byte stream, identical handler / "
+        "and the input cut at every byte boundary by a 40-step pause - exhaustive for that space; plus a libFuzzer campaign (world/fuzz_c12.c: the case is decoded twice from the same bytes, eager and scheduled, and compared through running hashes of output, callbacks and variables inside the target). Oracle: identical output byte stream, identical handler / "
         "variable-callback sequence with identical arguments, identical final variables, every refused byte re-offered unchanged. Non-trivial = the schedule "
         "refuses at least one read while a line is in progress and at least one write; distinct by case hash.")
 ASSUMPTIONS = ["events only when triggered by handler scripts and at most 8 per case on the capacity-8 ring, so acceptance cannot depend on timing (DESIGN 4.10); with events the command units and the event payloads are compared per producer; no HOLD (release timing is C14's)",
                "io read reports 'nothing' as 0 without touching *ch; write refusals are 0, -1 or 2"]
-TECHNIQUE = "Hypothesis property-based testing + exhaustive enumeration of <=2 refusal placements; oracle = differential between the eager schedule and the generated schedule on the real library"
+TECHNIQUE = "Hypothesis property-based testing + exhaustive enumeration of <=2 refusal placements + libFuzzer campaign; oracle = differential between the eager schedule and the generated schedule on the real library"
 LEVEL_TEXT = ("Differential testing of the real code against itself under different io schedules; small schedule perturbations (every placement of up to two "
               "refusals, every cut point) are enumerated exhaustively on fixed inputs, larger ones are generated.")
 LEVEL_NOTE = "Trusted: world harness (schedule, trace), Hypothesis. The eager run is the reference, so an error common to all schedules is invisible here (other properties cover it)."
@@ -196,6 +196,18 @@ def _with(base, rs, ws):
 
 def enumerations(tier):
     yield "refusal-placements", _placements()
+
+
+def prebuild(tier):
+    fuzz.prebuild("c12", (1,))
+
+
+def campaign(tier, seed, nworkers):
+    """coverage-guided search over (descriptor, input bytes, schedule bytes) with the eager-vs-scheduled differential inside the target"""
+    return fuzz.campaign(ID, "c12", (1,), BUDGET[tier]["fuzz_s"], seed, nworkers, max_len=800)
+
+
+replay_artifact = fuzz.replay_artifact
 
 
 def minimise(case, W, sig):
